@@ -1155,7 +1155,12 @@ func replay(c *vh.Ctx, raw json.RawMessage) {
 		replayRace(c, rr.Seed, rr.Tier)
 		return
 	}
-	for i := 0; i < 3 && c.NumViolations() == 0; i++ {
+	// a failure that depends on the schedule may need several attempts
+	attempts := 3
+	if sc.Kind == "stress" {
+		attempts = 20
+	}
+	for i := 0; i < attempts && c.NumViolations() == 0; i++ {
 		runCase(c, &sc)
 	}
 }
